@@ -538,6 +538,7 @@ def _wrapper(tree, fname, lean, args, table_name):
         types["shape"] = ILIST
     ex = _WExpr(types, arrays_w)
     zeroed, skipped, xp_ok = set(), set(), False
+    fdtypes = set()
     lets, reshapes = [], []
     call = None
     result = None
@@ -562,6 +563,14 @@ def _wrapper(tree, fname, lean, args, table_name):
                     raise U("xp = %s" % ast.unparse(v))
                 xp_ok = True
                 continue
+            if ast.unparse(v) == "np.result_type(coord.dtype, np.float32)" and call is None:
+                # the floating dtype width / param are stored in (coord.dtype for floating coordinates, a float type wide
+                # enough for integer-typed ones): the model's width / param are rationals either way
+                fdtypes.add(tgt)
+                skipped.add(tgt)   # stays unknown to the translator: any other modelled use raises Unsupported
+                continue
+            if tgt in fdtypes:
+                raise U("%s: %s rebound: %s" % (fname, tgt, ast.unparse(st)[:80]))
             if tgt == "isreal" and _is_call(v, "np", "issubdtype"):
                 skipped.add(tgt)   # stays unknown to the translator: any modelled use raises Unsupported
                 continue
@@ -606,7 +615,8 @@ def _wrapper(tree, fname, lean, args, table_name):
             for br, ty in ((st.body, T.RAT), (st.orelse, RLIST)):
                 if not (len(br) == 1 and isinstance(br[0], ast.Assign) and ast.unparse(br[0].targets[0]) == P
                         and _is_call(br[0].value, "xp", "array") and xp_ok and len(br[0].value.args) == 2
-                        and not br[0].value.keywords and ast.unparse(br[0].value.args[1]) == "coord.dtype"):
+                        and not br[0].value.keywords
+                        and (ast.unparse(br[0].value.args[1]) == "coord.dtype" or ast.unparse(br[0].value.args[1]) in fdtypes)):
                     raise U("%s: broadcasting branch of %s: %s" % (fname, P, ast.unparse(br[0])[:80] if br else "missing"))
                 types[P] = ty
                 branches.append(ex.lst(br[0].value.args[0], T.RAT))
